@@ -65,3 +65,17 @@ Definition apply_ins (s : sol) (route : option nat) (j : Z) : sol :=
 Definition quote_unassigned : Z := -1.
 Definition quote_tours (route : option nat) : Z := match route with Some _ => 0 | None => 1 end.
 Definition quote_value (value : Z -> Z) (j : Z) : Z := - value j.
+
+(* multi-activity jobs (eval_multi): the activities are inserted one after another, each on the shadow tour that already holds
+   the earlier ones; the quote of the leg-additive objective is the sum of the per-activity quotes on those shadow tours *)
+Fixpoint apply_steps (dur : Z -> Z -> Z) (t : list act) (steps : list (nat * act)) : list act :=
+  match steps with
+  | [] => t
+  | (idx, a) :: r => apply_steps dur (reschedule dur (insert_after t idx a)) r
+  end.
+
+Fixpoint multi_leg (dur m : Z -> Z -> Z) (t : list act) (steps : list (nat * act)) : Z :=
+  match steps with
+  | [] => 0
+  | (idx, a) :: r => leg_estimate m t idx a + multi_leg dur m (reschedule dur (insert_after t idx a)) r
+  end.
